@@ -1,7 +1,7 @@
 """C05: segment analysis verdicts are true of the real machine."""
 from . import core
 from .common import diff_streams, parse_kv
-from .deciders import GOALS, program_stream, event_happens
+from .deciders import GOALS, program_stream, event_happens, escalate
 
 LEVEL = "proof"
 POSITIVE = {"halt": "halt", "blank": "blank", "spin_out": "spinout"}
@@ -116,6 +116,10 @@ def check(rep, tier, seed, replay):
         total += len(lines)
         samples += lines[:2]
         core.log(f"[C05] {name}: {len(lines)} cases, {sum(len(v) for v in need.values())} verdicts judged, {len(bad)} contradicted")
+    if all_mism and not any(v.get("found_input") for v in rep.violations):
+        def refuted_by(line, out, f):
+            return holds(line.split(" ")[0].split("_", 1)[1], out, f) is False
+        escalate(rep, all_mism, lambda o: o.split("(")[0] in ("refuted", "repeat"), refuted_by, seed)
     for m in all_mism[:200]:
         rep.violation("correspondence", m, found_input=False)
     rep.add_counts(total, len(distinct))
